@@ -876,6 +876,11 @@ let () =
            if not (Z.eqb tpost.items (zi (List.length contents))) then
              say "A-FAIL %s: len()=%s but %d elements are stored" where (string_of_z tpost.items) (List.length contents)
          end;
+         (* branch bookkeeping from the implementation's own dumps: an in-place rehash of a HashTable *)
+         if tpost.mask = tpre.mask && tpre.mask <> nat_of_int 0 && Z.ltb (Z.add tpre.growth_left (zi 1)) tpost.growth_left
+            && List.mem topname ["tinsertunique"; "tentryinsert"; "tentryorinsert"; "treserve"; "ttryreserve"]
+         then bump branch "in_place_rehash_seen";
+         if List.exists (fun b -> Z.eqb b (zi 128)) tpost.ctrl then bump branch "tombstones_present";
          Hashtbl.replace distinct (String.concat " " opws ^ "|" ^ pre_s ^ "|" ^ arm) ()
        with
        | Stack_overflow -> say "C-MISMATCH %s: model evaluation overflowed the stack" where
